@@ -5,9 +5,19 @@ import json, pathlib, subprocess, sys
 VERIF = pathlib.Path(__file__).resolve().parent.parent
 sys.path.insert(0, str(VERIF))
 from sa.model import Program
-from sa.normalise import symbols_of
+from sa.normalise import symbols_of, signatures, Canonicaliser
 root = sys.argv[1] if len(sys.argv) > 1 else '/repo'
-syms = sorted(symbols_of(Program(root)))
+P0 = Program(root)
+syms = sorted(symbols_of(P0))
+# locals of every function, after the canonicalisation passes (which fold alias locals), with what defines them
+C = Canonicaliser(P0, pinned=set(syms), pinned_locals={})
+C.run()
+locs = {}
+for u in P0.all_units(with_closures=False):
+    sg = signatures(u.node)
+    if sg:
+        locs[u.qual] = sg
 head = subprocess.run(['git', '-C', root, 'rev-parse', 'HEAD'], capture_output=True, text=True).stdout.strip()
-(VERIF / 'sa' / 'pinned.json').write_text(json.dumps({'reference_commit': head, 'symbols': syms}, indent=0) + '\n')
-print(len(syms), 'symbols frozen from', head)
+(VERIF / 'sa' / 'pinned.json').write_text(json.dumps({'reference_commit': head, 'symbols': syms, 'locals': locs},
+                                                      indent=0, sort_keys=True) + '\n')
+print(len(syms), 'symbols and the locals of', len(locs), 'functions frozen from', head)
